@@ -44,7 +44,20 @@ CHECKS = {
  "C19": ("exploration", "metamorphic testing: paired runs with toggled loud/quiet opcodes",
          "the same resolved command history is run all-loud and with a generated subset switched to quiet opcodes on identical fresh stacks; untouched positions, per-position dumps and a walk through all expiry instants must be byte-identical; switched positions must follow the quiet rules.",
          "CAS values are compared literally (deterministic CAS source)", "6/C19"),
+ "C12": ("exploration", "model-based pipelines over loopback TCP with enforced segmentation; per-connection reference model",
+         "generated pipelines (all opcodes loud/quiet, unimplemented opcodes, quit/quitq anywhere) over a real socket to an in-process server; responses must be in request order, present exactly when the model says so, and nothing after quit may be answered or executed (store read through an in-process side channel).",
+         "loopback, in-process server (MemcacheTcpServer::run on its own runtime); completion by sentinel noop or EOF", "6/C12"),
+ "C13": ("fault_enumeration", "enumeration of (limit x body size x opcode x pipeline position x split of the oversized frame) on loopback TCP",
+         "a finite grid of limits, body sizes, opcodes, positions and first-read splits is enumerated completely (quick: fixed sub-grid); each point is one connection judged by response/status/opaque, behaviour of neighbouring requests and store content.",
+         "the part of a large body buffered at header time is bounded by the server's 4 KiB read buffer; bodies over 8 MiB are only announced", "6/C13"),
+ "C17": ("fault_enumeration", "stateful generation of connection lifecycles with a slot model and kernel-queue evidence",
+         "generated sequences of opens and endings (9 ending kinds + idle timeout) for limits 1..4 and two runtime flavours; after every step exactly min(limit, open) connections answer and the others provably sit unread in the server's receive queue.",
+         "which waiting connection is served next is not asserted; grace periods can only miss", "6/C17"),
+ "C18": ("fault_enumeration", "enumeration of every cut offset x fault kind with a differential (fault-free in-process) oracle and an observer connection",
+         "for generated pipelines every byte offset is combined with 7 fault kinds; store content must equal that of exactly the complete requests (orderly) or of some prefix of them (resets), the observer connection follows the reference model, and the server keeps serving.",
+         "differential oracle uses the same code without a socket; CAS not compared", "6/C18"),
 }
+
 
 NOT_YET = {}
 ALL = ["C%02d" % i for i in range(1, 21)]
